@@ -321,10 +321,21 @@ def ser_ret(ret):
     return 'X<%s>' % json.dumps(ret)           # unexpected exception / value: never equals a model rendering
 
 
-def ser_step(st):
-    if st['all'] and st['all'][0] == 'exc':
-        return ser_ret(st['ret']) + '|X<%s>;' % json.dumps(st['all'])
-    return ser_ret(st['ret']) + '|' + ''.join(ser_rec(x) for x in st['all']) + ';'
+def ser_steps(res):
+    """twin of ser_outs: per step the return value, the table length and the records that differ from the table
+    after the previous step"""
+    out = []
+    prev = []
+    for st in res:
+        if st['all'] and st['all'][0] == 'exc':
+            out.append(ser_ret(st['ret']) + '|X<%s>;' % json.dumps(st['all']))
+            prev = []
+            continue
+        cur = [ser_rec(x) for x in st['all']]
+        delta = ''.join('%d%s' % (i, y) for i, y in enumerate(cur) if i >= len(prev) or prev[i] != y)
+        out.append('%s|%d:%s;' % (ser_ret(st['ret']), len(cur), delta))
+        prev = cur
+    return out
 
 
 # --------------------------------------------------------------------------- Coq terms for a history
@@ -428,13 +439,25 @@ Open Scope N_scope.
 '''
 
 
-def coq_file(histories, bad):
-    """one cases.v: prints the rendering of the SQL-level model's outputs for every history"""
+def coq_str(text):
+    return '"%s"' % text.replace('"', '""')
+
+
+def coq_file(histories, bad, expected=None):
+    """one cases.v.  With [expected] (the implementation's rendering per history): compares inside Coq and prints the
+    indices of the histories whose model rendering differs.  Without: prints the model's rendering of every history."""
     e = Emit()
     body = []
     for i, ops in enumerate(histories):
         body.append('Definition h%d : list op := [\n  %s].' % (i, ';\n  '.join(e.op(o) for o in ops)))
-        body.append('Eval vm_compute in (ser_outs (run_sql badf empty_db h%d)).' % i)
+        if expected is None:
+            body.append('Eval vm_compute in (ser_outs (run_sql badf empty_db h%d)).' % i)
+        else:
+            body.append('Definition e%d : string := %s.' % (i, coq_str(expected[i])))
+    if expected is not None:
+        body.append('Definition checks : list bool := [\n  %s].' % ';\n  '.join(
+            'String.eqb (ser_outs (run_sql badf empty_db h%d)) e%d' % (i, i) for i in range(len(histories))))
+        body.append('Eval vm_compute in (failing checks).')
     badl = '[%s]' % '; '.join(e.s(u) for u in sorted(bad) if bad[u])
     pre = '\n'.join(e.defs) + '\nDefinition badf (u : list N) : bool := existsb (list_eqb u) %s.\n' % badl
     return HEADER + pre + '\n'.join(body) + '\n'
@@ -544,26 +567,36 @@ def correspondence(ctx):
         per_file = 45
     cases = [dict(c) for c in FIXED] + [dict(FIXED[0], mode=m) for m in MODES[2:]] + cases
     results, bad = _impl(cases)
-    impl_text = [[ser_step(s) for s in res] for res in results]
-    # model side, inside Coq
-    files = [coq_file([c['ops'] for c in cases[i:i + per_file]], bad) for i in range(0, len(cases), per_file)]
+    impl_text = [ser_steps(res) for res in results]
+    # model side, inside Coq: the comparison itself is evaluated by vm_compute (String.eqb of the two renderings);
+    # only histories that differ are rendered again in print mode to locate the first differing step
+    chunks = [list(range(i, min(i + per_file, len(cases)))) for i in range(0, len(cases), per_file)]
+    files = [coq_file([cases[i]['ops'] for i in ch], bad, [''.join(impl_text[i]) for i in ch]) for ch in chunks]
     outs = common.coq_eval_many(files, timeout=900, par=6)
     disagreements = []
+    differing = []
     for fi, (rc, out) in enumerate(outs):
-        chunk = cases[fi * per_file:(fi + 1) * per_file]
-        got = parse_coq(out) if rc == 0 else None
-        if got is None or len(got) != len(chunk):
+        got = common.parse_vm_list(out) if rc == 0 else None
+        if got is None:
             disagreements.append({'shard': fi, 'coq_error': out[-800:]})
             continue
-        for j, text in enumerate(got):
-            idx = fi * per_file + j
-            msteps = [s + ';' for s in text.split(';')[:-1]]
-            i = _first_diff(msteps, impl_text[idx])
-            if i is not None:
-                disagreements.append({'note': 'model rendering differs from implementation', 'history': idx, 'step': i,
-                                      'mode': cases[idx]['mode'], 'op': cases[idx]['ops'][i] if i < len(cases[idx]['ops']) else None,
-                                      'model': msteps[i][:600] if i < len(msteps) else None,
-                                      'impl': impl_text[idx][i][:600] if i < len(impl_text[idx]) else None})
+        differing += [chunks[fi][int(j)] for j in got]
+    if differing:
+        show = differing[:60]
+        pouts = common.coq_eval_many([coq_file([cases[i]['ops'] for i in show[k:k + 10]], bad)
+                                      for k in range(0, len(show), 10)], timeout=900, par=6)
+        texts = []
+        for rc, out in pouts:
+            texts += parse_coq(out) if rc == 0 else []
+        for n, idx in enumerate(differing):
+            d = {'note': 'model rendering differs from implementation', 'history': idx, 'mode': cases[idx]['mode']}
+            if n < len(texts):
+                msteps = [s + ';' for s in texts[n].split(';')[:-1]]
+                i = _first_diff(msteps, impl_text[idx])
+                d.update({'step': i, 'op': cases[idx]['ops'][i] if i is not None and i < len(cases[idx]['ops']) else None,
+                          'model': msteps[i][:600] if i is not None and i < len(msteps) else None,
+                          'impl': impl_text[idx][i][:600] if i is not None and i < len(impl_text[idx]) else None})
+            disagreements.append(d)
     # distribution and non-triviality
     dist = collections.Counter()
     rets = collections.Counter()
